@@ -15,9 +15,9 @@ from linear_operator.utils.memoize import cached
 
 
 class RootLinearOperator(LinearOperator):
-    def __init__(self, root):
+    def __init__(self, root, **kwargs):
         root = to_linear_operator(root)
-        super().__init__(root)
+        super().__init__(root, **kwargs)
         self.root = root
 
     def _diagonal(self: Float[LinearOperator, "... M N"]) -> Float[torch.Tensor, "... N"]:
